@@ -114,6 +114,7 @@ func (e *Exec) zzCall(fn *ssa.Function, args []Value) Value {
 		e.recNondet("lazy", nm, 0)
 		o := e.newObj(&LazyV{Name: nm, T: ta[0]}, nm)
 		o.Tag = "input:" + nm
+		o.T = ta[0]
 		return &PtrV{O: o}
 	case "NamedConsts":
 		pp, _ := concStr(args[0])
@@ -138,6 +139,21 @@ func (e *Exec) zzCall(fn *ssa.Function, args []Value) Value {
 		return bor(bnot(args[0].(*BoolV)), args[1].(*BoolV))
 	case "Iff":
 		return beq(args[0].(*BoolV), args[1].(*BoolV))
+	case "Realise", "RealiseCRL", "RealiseOr", "RealiseCRLOr":
+		// identity under the symbolic executor (natively: DER round trip through the real parser)
+		return args[0]
+	case "SetMapOrder":
+		o, _ := concStr(args[0])
+		e.cfg.MapOrder = o
+		return nil
+	case "LocksHeld":
+		n := 0
+		for _, d := range e.lockDepth {
+			if d > 0 {
+				n += d
+			}
+		}
+		return cbv(uint64(n), 64)
 	case "RegexpOver":
 		sl := args[0].(*SliceV)
 		n, _ := concInt(sl.Len)
@@ -313,7 +329,7 @@ func (e *Exec) assertion(c *BoolV, msg string) {
 				if len(names) > 0 {
 					m = e.s.GetValues(names)
 				}
-				e.res.Fails = append(e.res.Fails, AssertFail{Msg: msg, Result: "concrete", Model: m, Nondet: e.nondetWithModel(m), Site: e.curSite})
+				e.res.Fails = append(e.res.Fails, AssertFail{Msg: msg, Result: "concrete", Model: m, Nondet: e.nondetWithModel(m), Site: e.curSite, Note: e.notes["recovered"]})
 			default:
 				e.reviveSolver()
 				e.res.Asserts++
@@ -352,7 +368,7 @@ func (e *Exec) assertion(c *BoolV, msg string) {
 		}
 		m := e.s.GetValues(names)
 		e.send("(pop 1)")
-		e.res.Fails = append(e.res.Fails, AssertFail{Msg: msg, Result: "sat", Model: m, Nondet: e.nondetWithModel(m), Site: e.curSite})
+		e.res.Fails = append(e.res.Fails, AssertFail{Msg: msg, Result: "sat", Model: m, Nondet: e.nondetWithModel(m), Site: e.curSite, Note: e.notes["recovered"]})
 	default:
 		e.send("(pop 1)")
 		e.res.Inconclusive = append(e.res.Inconclusive, AssertFail{Msg: msg, Result: r, Site: e.curSite})
